@@ -78,48 +78,9 @@ Section Field.
   Qed.
 End Field.
 
-(* ---- instantiation ---- *)
-Lemma crc16_load_sweep :
-  all_below (fun c => run 16 32773 0 (byte_bits 16 c) =? run 16 32773 c (repeat false 16)) (N.to_nat 65535) = true.
-Proof. vm_compute. reflexivity. Qed.
-
-Lemma crc8_load_sweep :
-  all_below (fun c => run 8 7 0 (byte_bits 8 c) =? run 8 7 c (repeat false 8)) (N.to_nat 255) = true.
-Proof. vm_compute. reflexivity. Qed.
-
-Lemma crc16_sweeps :
-  (forall reg, 0 < reg < 2 ^ 16 -> step 16 32773 reg false <> 0) /\
-  (forall p, length p = 16%nat -> existsb (fun b => b) p = true -> run 16 32773 0 p <> 0) /\
-  (forall c, c < 2 ^ 16 -> run 16 32773 0 (byte_bits 16 c) = run 16 32773 c (repeat false 16)).
-Proof.
-  split; [|split].
-  - intros reg [H0 Hlt]. pose proof (all_below_spec _ _ reg crc16_zero_step_sweep) as H.
-    rewrite N2Nat.id in H. specialize (H ltac:(change (2 ^ 16) with 65536 in Hlt; lia)).
-    apply Bool.negb_true_iff, N.eqb_neq in H. exact H.
-  - intros q Hl Hq. pose proof crc16_burst_sweep as H. rewrite forallb_forall in H.
-    specialize (H q (all_lists_complete 16 q Hl)). unfold burst_check in H. rewrite Hq in H. cbn [negb orb] in H.
-    apply Bool.negb_true_iff, N.eqb_neq in H. exact H.
-  - intros c Hc. destruct (N.eq_dec c 0) as [->|Hnz]; [vm_compute; reflexivity|].
-    pose proof (all_below_spec _ _ c crc16_load_sweep) as H. rewrite N2Nat.id in H.
-    specialize (H ltac:(change (2 ^ 16) with 65536 in Hc; lia)). apply N.eqb_eq in H. exact H.
-Qed.
-
-Lemma crc8_sweeps :
-  (forall reg, 0 < reg < 2 ^ 8 -> step 8 7 reg false <> 0) /\
-  (forall p, length p = 8%nat -> existsb (fun b => b) p = true -> run 8 7 0 p <> 0) /\
-  (forall c, c < 2 ^ 8 -> run 8 7 0 (byte_bits 8 c) = run 8 7 c (repeat false 8)).
-Proof.
-  split; [|split].
-  - intros reg [H0 Hlt]. pose proof (all_below_spec _ _ reg crc8_zero_step_sweep) as H.
-    rewrite N2Nat.id in H. specialize (H ltac:(change (2 ^ 8) with 256 in Hlt; lia)).
-    apply Bool.negb_true_iff, N.eqb_neq in H. exact H.
-  - intros q Hl Hq. pose proof crc8_burst_sweep as H. rewrite forallb_forall in H.
-    specialize (H q (all_lists_complete 8 q Hl)). unfold burst_check in H. rewrite Hq in H. cbn [negb orb] in H.
-    apply Bool.negb_true_iff, N.eqb_neq in H. exact H.
-  - intros c Hc. destruct (N.eq_dec c 0) as [->|Hnz]; [vm_compute; reflexivity|].
-    pose proof (all_below_spec _ _ c crc8_load_sweep) as H. rewrite N2Nat.id in H.
-    specialize (H ltac:(change (2 ^ 8) with 256 in Hc; lia)). apply N.eqb_eq in H. exact H.
-Qed.
+(* ---- instantiation: the facts of Proofs/CrcBurst.v ---- *)
+Definition crc16_sweeps := crc16_facts.
+Definition crc8_sweeps := crc8_facts.
 
 (* bit level: message bits followed by the stored field, MSB first *)
 Theorem crc16_field_burst_detected (m m' : list bool) (c' : N) i j p :
